@@ -398,6 +398,27 @@ fn determinism(a: &Args) -> i32 {
     0
 }
 
+/// Replay exactness: execute from the seed, then again from the recorded decision trace; the two
+/// executions must make identical decisions (same hash, zero replay mismatches).
+fn selftest_replay(a: &Args) -> i32 {
+    let property = a.get("--property").expect("--property");
+    let seed = a.u64("--seed", 1);
+    let start = a.u64("--start", 0);
+    let count = a.u64("--count", 100);
+    let mut bad = 0;
+    for i in start..start + count {
+        let (script, _) = generate(&property, seed, i, false);
+        let o1 = exec::run_one(script.job(), None);
+        let o2 = exec::run_one(script.job(), Some(o1.trace.clone()));
+        if o1.trace_hash != o2.trace_hash || o2.stats.replay_mismatches != 0 || o1.stats.decisions != o2.stats.decisions {
+            bad += 1;
+            println!("replay differs at index {i}: {:016x} vs {:016x}, {} mismatches", o1.trace_hash, o2.trace_hash, o2.stats.replay_mismatches);
+        }
+    }
+    println!("selftest-replay {property}: {count} runs replayed from their traces, {bad} differ");
+    (bad > 0) as i32
+}
+
 fn main() {
     let args: Vec<String> = std::env::args().skip(1).collect();
     if args.is_empty() {
@@ -411,6 +432,7 @@ fn main() {
         "replay" => replay(&a),
         "minimise" => minimise::main(&a.0[1..]),
         "determinism" => determinism(&a),
+        "selftest-replay" => selftest_replay(&a),
         x => {
             eprintln!("unknown command {x}");
             2
